@@ -930,7 +930,14 @@ def cmd_report(args):
         w(f"Suite survivors (compile, pass the library's own tests): **{passed}**.  Detected by at least one relevant quick check: **{det}** "
           f"({n['detected-with-replay']} with a replayable failing input, {n['detected-obligation-only']} as broken obligation / correspondence only, "
           f"{n['detected-check-failed']} by a check that failed without a VIOLATION line).  Survived every relevant check: **{n['survived']}**.\n")
-        w(f"**Mutation score = detected / (detected + survived) = {det} / {passed} = {det / passed:.2f}**\n")
+        w(f"**Mutation score = detected / (detected + survived) = {det} / {passed} = {det / passed:.2f}**  "
+          f"(counting only mutants for which a VIOLATION line was printed: {det - n['detected-check-failed']} / {passed} = {(det - n['detected-check-failed']) / passed:.2f})\n")
+        fixed = {r["id"] for r in res.values() if r.get("tag", "").startswith("after") and r["status"] in ("detected-with-replay", "detected-obligation-only")}
+        newly = [r for r in rows if r["id"] in fixed and r["status"] in ("survived", "detected-check-failed")]
+        if newly:
+            d2 = det - n["detected-check-failed"] + len(newly)
+            w(f"After the strengthening described below ({len(newly)} mutants re-run: {', '.join(sorted(r['id'].split('-')[0] for r in newly))}) every one of them is reported with a VIOLATION line: "
+              f"{d2} / {passed} = {d2 / passed:.2f}.\n")
         if cls:
             c = collections.Counter(cls.get(r["id"], {}).get("class", "?") for r in rows if r["status"] == "survived")
             eq = c.get("E", 0)
@@ -1003,6 +1010,9 @@ def cmd_report(args):
     for r in rows:
         if r["status"].startswith("detected"):
             w(f"| {r['id']} | {r['operator']} | `{r['file'].replace('crates/', '')}:{r['line']}` `{r['function']}` | {r['status']} | {', '.join(r.get('detected_by', [])) or 'rc!=0: ' + ','.join(c for c, v in r['checks'].items() if v['rc'] != 0)} |")
+    ap_ = os.path.join(OUT, "analysis.md")        # hand-written analysis, appended verbatim
+    if os.path.exists(ap_):
+        L.append(open(ap_).read())
     with open(os.path.join(OUT, "REPORT.md"), "w") as h:
         h.write("\n".join(L) + "\n")
     print(f"{len(rows)} results; statuses {dict(n)}; score {det}/{passed}")
